@@ -257,11 +257,22 @@ def rule_r2(chk, p, t):
             bad.append(f"third-body term `{unparse(elt) if elt is not None else None}` (expected body.mu * acc(r_eci, position))")
         srp = defs.get("a_srp")
         body = srp.body if isinstance(srp, ast.IfExp) else None
-        if body is None or [unparse(a) for a in body.args] != ["r_eci", "array(sun_positions)"]:
+        def sun_ok(e):
+            """the Sun position: the table entry when the Sun is a configured third body, else its own ephemeris call"""
+            if isinstance(e, ast.Name) and e.id in defs:
+                e = defs[e.id]
+            if not (isinstance(e, ast.IfExp) and isinstance(e.test, ast.Compare) and len(e.test.ops) == 1 and isinstance(e.test.ops[0], (ast.In, ast.NotIn)) and unparse(e.test.left) == "Sun" and unparse(e.test.comparators[0]) == "self.third_bodies"):
+                return False
+            when_in, when_out = (e.body, e.orelse) if isinstance(e.test.ops[0], ast.In) else (e.orelse, e.body)
+            return unparse(when_in) == "positions[Sun]" and unparse(when_out) == "Sun.getPosition(julian_date)"
+
+        args_ = list(body.args) if body is not None else []
+        a1 = args_[1] if len(args_) == 2 else None
+        inner = a1.args[0] if isinstance(a1, ast.Call) and call_name(a1) in ("array", "asarray") and len(a1.args) == 1 else None
+        if body is None or len(args_) != 2 or unparse(args_[0]) != "r_eci" or inner is None:
             bad.append(f"SRP arguments {[unparse(a) for a in body.args] if body is not None else None}")
-        sun = defs.get("sun_positions")
-        if unparse(sun) != "Sun.getPosition(julian_date) if Sun not in self.third_bodies else positions[Sun]":
-            bad.append(f"sun_positions = `{unparse(sun) if sun is not None else None}`")
+        elif not sun_ok(inner):
+            bad.append(f"the Sun position handed to the SRP term is `{unparse(defs.get(inner.id, inner) if isinstance(inner, ast.Name) else inner)[:90]}` (expected positions[Sun] when the Sun is a third body, else Sun.getPosition(julian_date))")
         gr = defs.get("a_gr")
         gbody = gr.body if isinstance(gr, ast.IfExp) else None
         if gbody is None or [unparse(a) for a in gbody.args] != ["r_eci", "v_eci"]:
